@@ -184,6 +184,10 @@ def check_one(w):
     exp = expected_call(name, kind, arg)
     with L.frozen_time():
         s = L.make_line(lo, hi)
+        # an earlier message built by the encoders (any command, any target) must leave no residue
+        L.feed(s, list(bytes.fromhex(w.get('pre', ''))))
+        if L.fstate_of(s) != ([], False, 0):
+            return 'parser not idle after the preceding encoder message'
         L.spy_on(s)
         outs = L.feed(s, out)
         if any(o != 'T' for o in outs[:-1]):
@@ -192,8 +196,10 @@ def check_one(w):
             return 'message rejected by the simulator: %r' % (outs[-1],)
         if L.fstate_of(s) != ([], False, 0):
             return 'parser not idle after the message'
-        logs = [list(u._spy) for u in s.drivers]
+        logs = L.logs_of(s)
         n = hi - lo + 1
+        if len(logs) != n:
+            return 'the line has %d units instead of %d' % (len(logs), n)
         if idx is None:
             targets = [] if (code in L.GETTERS or exp is None) else list(range(n))
             if outs[-1] != 'T':
@@ -201,12 +207,12 @@ def check_one(w):
         else:
             targets = [idx - lo] if (lo <= idx <= hi and exp is not None) else []
             if lo <= idx <= hi:
-                if code == 0x28 and exp == (255,):
+                if s.drivers[idx - lo].delay_multiplier == 255:
                     if outs[-1] != 'T':
-                        return 'unit answered although its response delay is now 255 (no response)'
+                        return 'unit answered although its response delay is 255 (no response)'
                 elif not isinstance(outs[-1], list):
                     return 'addressed unit did not answer'
-                if exp is None and outs[-1] != [L.NAK]:
+                elif exp is None and outs[-1] != [L.NAK]:
                     return 'out-of-range value not refused with NAK'
             elif outs[-1] != 'T':
                 return 'absent unit answered'
@@ -244,7 +250,13 @@ def oracle(ctx):
         if idx is not None and rng.random() < 0.6:       # mostly address a present unit
             lo, hi = max(0, idx - rng.randrange(3)), min(31, idx + rng.randrange(3))
         w = dict(encoder=name, kind=kind, code=code, arg=({'chr': ord(arg)} if isinstance(arg, str) else arg),
-                 idx=idx, aor=aor, min=lo, max=hi)
+                 idx=idx, aor=aor, min=lo, max=hi, pre='')
+        if rng.random() < 0.5:
+            pn, pctor, pkind, pcode = rng.choice(ENCODERS)
+            parg = gen_arg(rng, pkind)
+            pre = call_encoder(pn, parg, rng.choice([None, None, rng.randrange(32)]), rng.random() < 0.5) \
+                if in_domain(pkind, parg) else None
+            w['pre'] = bytes(pre).hex() if pre else ''
         checked += 1
         bad = check_one(w)
         if bad and (name, bad[:25]) not in seen:
